@@ -264,7 +264,7 @@ def _py_files():
 class _Sites(ast.NodeVisitor):
     def __init__(self, rel):
         self.rel = rel; self.stack = []
-        self.callCommand = []; self.gate = []; self.proxy = []; self.getMethod = []
+        self.callCommand = []; self.gate = []; self.proxy = []; self.getMethod = []; self.defmut = []
     def visit_FunctionDef(self, n):
         self.stack.append(n.name); self.generic_visit(n); self.stack.pop()
     visit_AsyncFunctionDef = visit_FunctionDef
@@ -284,6 +284,11 @@ class _Sites(ast.NodeVisitor):
             elif f.attr == 'getCommandMethod':
                 if not (self.stack and self.stack[-1] == 'getCommandMethod'):
                     self.getMethod.append(self.where())
+            elif f.attr in ('add', 'remove', 'discard', 'clear', 'update', 'pop', 'difference_update', 'intersection_update') \
+                    and ast.unparse(f.value) == 'conf.supybot.capabilities()':
+                self.defmut.append('%s:%s' % (self.where(), f.attr))
+            elif f.attr in ('setValue', 'set') and ast.unparse(f.value) == 'conf.supybot.capabilities':
+                self.defmut.append('%s:%s' % (self.where(), f.attr))
             elif f.attr == 'Proxy':
                 self.proxy.append((self.where(), ast.unparse(n.args[1]) if len(n.args) > 1 else '?', len(n.args)))
         elif isinstance(f, ast.Name) and f.id == 'NestedCommandsIrcProxy':
@@ -364,12 +369,12 @@ def gen_commands():
             plugins.append((cname, threaded, rows))
     if len(plugins) < 20:
         raise ExtractionError('only %d plugins found' % len(plugins))
-    cc, gate, proxy, getm = [], [], [], []
+    cc, gate, proxy, getm, defmut = [], [], [], [], []
     for rel in _py_files():
         tree = parse(rel)
         v = _Sites(rel)
         v.visit(tree)
-        cc += v.callCommand; gate += v.gate; proxy += v.proxy; getm += v.getMethod
+        cc += v.callCommand; gate += v.gate; proxy += v.proxy; getm += v.getMethod; defmut += v.defmut
     facts = _gate_shape()
 
     def row(plugin, path, wrapped, spec):
@@ -399,6 +404,9 @@ def gen_commands():
             'def getCommandMethodCallers : List String := %s\n\n'
             '/-- re-dispatch sites: (where, expression passed as msg, number of positional arguments) -/\n'
             'def proxySites : List (String × String × Nat) := %s\n\n'
+            '/-- code that mutates the default capability set `conf.supybot.capabilities()` in place or assigns it\n'
+            '(anything else goes through the registry `set`, i.e. `DefaultCapabilities.setValue`) -/\n'
+            'def defaultCapsMutators : List String := %s\n\n'
             '/-- shape facts of the gate code (name, holds) -/\n'
             'def gateShape : List (String × Bool) := %s\n\nend Gen\n'
             % (n, len(plugins), ',\n'.join(rows_txt),
@@ -408,5 +416,6 @@ def gen_commands():
                llist(lstring(x) for x in sorted(gate)),
                llist(lstring(x) for x in sorted(getm)),
                llist('(%s, %s, %d)' % (lstring(w), lstring(m), k) for w, m, k in sorted(proxy)),
+               llist(lstring(x) for x in sorted(defmut)),
                llist('(%s, %s)' % (lstring(k), 'true' if v else 'false') for k, v in facts)))
     write_if_changed('Commands.lean', body, 'plugins/*/plugin.py, plugins/__init__.py, src/callbacks.py, src/commands.py')
